@@ -46,42 +46,68 @@ def strip(n):
     return n
 
 
-def S(n):
-    """Normalised text of an expression node."""
+_PREC = {'*': 12, '/': 12, '%': 12, '+': 11, '-': 11, '<<': 10, '>>': 10, '<': 9, '<=': 9, '>': 9, '>=': 9,
+         '==': 8, '!=': 8, '&': 7, '^': 6, '|': 5, '&&': 4, '||': 3, '?': 2, '=': 1, '+=': 1, '-=': 1, '*=': 1,
+         '/=': 1, ',': 0}
+
+
+def _T(n):
+    """(text, precedence) with minimal parentheses."""
     n = strip(n)
     if not isinstance(n, dict):
-        return '?'
+        return '?', 20
     k = n.get('kind')
     if k == 'DeclRefExpr':
-        return n['referencedDecl']['name']
+        return n['referencedDecl']['name'], 20
     if k in ('IntegerLiteral', 'FloatingLiteral'):
-        return str(n['value'])
+        return str(n['value']), 20
     if k == 'StringLiteral':
-        return n.get('value', '""')
+        return n.get('value', '""'), 20
     if k in ('BinaryOperator', 'CompoundAssignOperator'):
         a, b = n['inner']
-        return '(%s%s%s)' % (S(a), n['opcode'], S(b))
+        op = n['opcode']
+        p = _PREC.get(op, 1)
+        (ta, pa), (tb, pb) = _T(a), _T(b)
+        if pa < p:
+            ta = '(%s)' % ta
+        if pb <= p:
+            tb = '(%s)' % tb
+        return '%s%s%s' % (ta, op, tb), p
     if k == 'UnaryOperator':
-        x = S(n['inner'][0])
-        return '(%s%s)' % (x, n['opcode']) if n.get('isPostfix') else '(%s%s)' % (n['opcode'], x)
+        t, p = _T(n['inner'][0])
+        if p < 14:
+            t = '(%s)' % t
+        return ('%s%s' % (t, n['opcode']) if n.get('isPostfix') else '%s%s' % (n['opcode'], t)), 14
     if k == 'ArraySubscriptExpr':
         a, b = n['inner']
-        return '%s[%s]' % (S(a), S(b))
+        ta, pa = _T(a)
+        if pa < 15:
+            ta = '(%s)' % ta
+        return '%s[%s]' % (ta, _T(b)[0]), 15
     if k == 'CallExpr':
-        return S(n['inner'][0]) + '(' + ','.join(S(x) for x in n['inner'][1:]) + ')'
+        return _T(n['inner'][0])[0] + '(' + ','.join(_T(x)[0] for x in n['inner'][1:]) + ')', 15
     if k == 'UnaryExprOrTypeTraitExpr':
         t = n.get('argType', {}).get('qualType')
         if t is None and n.get('inner'):
-            t = 'expr:' + S(n['inner'][0])
-        return 'sizeof(%s)' % t
+            t = 'expr:' + _T(n['inner'][0])[0]
+        return 'sizeof(%s)' % t, 15
     if k == 'ConditionalOperator':
         c, a, b = n['inner']
-        return '(%s?%s:%s)' % (S(c), S(a), S(b))
+        tc, pc = _T(c)
+        if pc <= 2:
+            tc = '(%s)' % tc
+        return '%s?%s:%s' % (tc, _T(a)[0], _T(b)[0]), 2
     if k == 'MemberExpr':
-        return S(n['inner'][0]) + ('->' if n.get('isArrow') else '.') + n['name']
+        return _T(n['inner'][0])[0] + ('->' if n.get('isArrow') else '.') + n['name'], 15
     if k == 'InitListExpr':
-        return '{...}'
-    return '<%s>' % k
+        return '{...}', 20
+    return '<%s>' % k, 20
+
+
+def S(n):
+    """Normalised text of an expression node (minimal parentheses, no spaces
+    except inside type names)."""
+    return _T(n)[0]
 
 
 def unparen(e):
@@ -189,7 +215,10 @@ class CFunc:
             info = dict(var=var, lo=lo, op=op, hi=hi, inc=incs, node=n, loops=list(loops), guards=list(guards), line=self._cur)
             self.fors.append(info)
             if init:
+                n0 = len(self.assigns)
                 self._walk(init, loops, guards)
+                for a_ in self.assigns[n0:]:
+                    a_['forinit'] = True
             if cond:
                 self._walk(cond, loops, guards)
             self._walk(body, loops + [info], guards)
@@ -225,7 +254,10 @@ class CFunc:
             return
         if k == 'VarDecl':
             init = n['inner'][0] if n.get('inner') else None
-            self.locals[n['name']] = (n['type']['qualType'], init, self._cur)
+            ty = n['type']['qualType']
+            if n.get('storageClass') == 'static':
+                ty = 'static ' + ty
+            self.locals[n['name']] = (ty, init, self._cur)
             if init is not None:
                 a = self._alloc_of(init)
                 if a:
